@@ -211,3 +211,63 @@ def C12(ck):
                           "-in", valid, "-out", ck.path("we"), "json"], "Trace_Wire", par=12, xmx="3g")
     finally:
         _rm(valid)
+
+
+def _registry_models(ck):
+    ck.add_model(vlib.mc("MC_Registry", "MC_Registry.cfg"))
+    ck.add_model(vlib.mc("MC_Dispatch", "MC_Dispatch.cfg"))
+
+
+def _reg_hist(ck, n):
+    hist, nh = vlib.gen_sim("Sim_Registry", "Sim_Registry.cfg", "rhist", n, 35, ck.seed, procs=8)
+    try:
+        stats, res = ck.run_and_judge(["reg-hist", "-seed", ck.seed, "-chunk", 3000, "-in", hist, "-out", ck.path("rh")], "Trace_Registry",
+                                      par=12, xmx="3g")
+        ops = set()
+        ok = fail = 0
+        for v in res["verdicts"]:
+            ops |= set(v.get("ops", []))
+            ok += v.get("regOK", 0)
+            fail += v.get("regFail", 0)
+        if not {"Register", "NewClaims", "Mutate", "DecodeJSON", "DecodeCBOR"} <= ops or ok == 0 or fail == 0:
+            raise Machinery("register histories lack operations / outcomes: %s ok=%d fail=%d" % (sorted(ops), ok, fail))
+        ck.extra.update(histories=nh, register_ok=ok, register_failed=fail)
+    finally:
+        _rm(hist)
+
+
+def C16(ck):
+    ck.rule = ("register / instance histories of 30 operations simulated by TLC from spec/Sim_Registry.tla over 8 names x 4 claims "
+               "kinds (profile-1 based, profile-2 based, own JSON profile member, no profile field): register, re-register, NewClaims, "
+               "JSON / CBOR dispatching decodes, mutation of one live instance; after EVERY step the harness re-observes the whole "
+               "register (hook), 11 lookups, 40 JSON documents (each dispatched 8 times: Go map order) and 16 CBOR tokens, and re-projects "
+               "every live instance; judged step by step by Trace_Registry against PsaRegistry!RegisterF / NewClaimsF / DispatchJSON / "
+               "DispatchCBOR; MC_Registry proves append-only / failed-register-changes-nothing / only-declaring-tokens-affected / fresh "
+               "instances on the bounded model, MC_Dispatch that the dispatch loop equals the order-free function for every iteration "
+               "order; non-trivial = every step after Start")
+    ck.assumptions = TRUST + ["register snapshot / restore hook (verif_hooks.go) to replay many histories in one process"]
+    _registry_models(ck)
+    _reg_hist(ck, 160 if ck.tier == "quick" else 3000)
+
+
+def C07(ck):
+    ck.rule = ("CBOR: the C04 token enumeration with the profile claim present / absent / null / unknown / other profile's / under "
+               "both keys and extension profile X2 registered, judged against PsaWire!DispatchCBOR (default profile 1, unregistered "
+               "=> error, validated under the declared profile's rules, accepted token reports it); JSON: every valid set's document "
+               "(C12 generator) and the 40-document battery of TLC-simulated register histories (0..8 extra profiles, NewClaims(p) "
+               "reports p), judged against PsaWire!DispatchJSON; MC_Dispatch proves the loop = the order-free function; "
+               "non-trivial = rejected / redirected token or register step")
+    ck.assumptions = TRUST
+    _registry_models(ck)
+    dom = vlib.gen_export("Gen_Claims", "Gen_Claims.cfg", "domains")
+    wire = vlib.gen_export("Gen_Wire", "Gen_Wire.cfg", "wire")
+    valid = vlib.gen_export("Gen_Valid", "Gen_Valid.cfg", "valid")
+    try:
+        n = 1500 if ck.tier == "quick" else 60000
+        ck.run_and_judge(["wire-decode", "-seed", ck.seed, "-tier", ck.tier, "-n", n, "-reg", "X2", "-chunk", 4000, "-in", wire, "-in2", dom,
+                          "-out", ck.path("wd")] + (["nopairs"] if ck.tier == "quick" else []), "Trace_Wire", par=12, xmx="3g", mode="dispatch")
+        ck.run_and_judge(["wire-encode", "-seed", ck.seed, "-tier", ck.tier, "-n", _stride(ck, 9, 2), "-reg", "X2", "-chunk", 4000,
+                          "-in", valid, "-out", ck.path("we"), "json"], "Trace_Wire", par=12, xmx="3g")
+        _reg_hist(ck, 60 if ck.tier == "quick" else 1000)
+    finally:
+        _rm(dom, wire, valid)
